@@ -49,6 +49,8 @@ func compoundAssignFunction(d *dataTreeNavigator, context Context, expressionNod
 		prefs = typedPref
 	case multiplyPreferences:
 		prefs.ClobberCustomTags = typedPref.AssignPrefs.ClobberCustomTags
+		// as a plain `=` does: the target keeps its anchor (aliases elsewhere refer to it)
+		prefs.DontOverWriteAnchor = true
 	}
 
 	assignmentOp := &Operation{OperationType: assignOpType, Preferences: prefs}
